@@ -88,6 +88,7 @@ type Exec struct {
 	qHeight  int64      // height of the query being served (QH), 0 = latest
 	WantNode bool
 	pendingUpgrade string
+	signSeen map[string]signSeen
 	upgradeHeight  int64
 	WantConc int
 }
@@ -406,6 +407,15 @@ func (x *Exec) Run(lines []string) {
 				m.AfterTx(x, x.cur, result)
 			}
 			x.cur = nil
+		case "ENDSIGN":
+			for _, tl := range x.cur.Lines {
+				x.Out.Decl("%s", tl)
+			}
+			hl, ans := x.endSign(f)
+			x.Out.Cmd(hl, ans)
+			x.Stats["sign:"+f[1]]++
+			x.Stats["signres:"+strings.Split(ans, " ")[0]+" "+map[bool]string{true: "bytes", false: ans}[strings.HasPrefix(ans, "S ") && len(ans) > 8]]++
+			x.cur = nil
 		case "ENDCHECK", "ENDSIM":
 			for _, tl := range x.cur.Lines {
 				x.Out.Decl("%s", tl)
@@ -444,6 +454,7 @@ func (x *Exec) Run(lines []string) {
 				}
 			} else {
 				ans = x.query(append([]string{"Q"}, f[2:]...))
+				x.twinQuery(append([]string{"Q"}, f[2:]...), ans)
 			}
 			x.qHeight = 0
 			x.Out.Cmd(l, ans)
@@ -510,6 +521,7 @@ func (x *Exec) Run(lines []string) {
 			}
 		case "Q":
 			ans := x.query(f)
+			x.twinQuery(f, ans)
 			x.Out.Cmd(l, ans)
 			x.Stats["query:"+f[1]]++
 			x.Stats["qres:"+strings.Join(strings.Split(ans, " ")[:min(3, len(strings.Split(ans, " ")))][:2], " ")]++
